@@ -474,6 +474,11 @@ canon::CLib extract(const Library& lib, const ExtractOptions& opt) {
             for (uint64_t k = 0; k < p->spine.point_array.count; k++)
                 sp.push_back(G.g(p->spine.point_array[k]));
             cc.close_path_vertices += canon::close_pairs(sp);
+            {
+                char tb[40];
+                snprintf(tb, sizeof tb, "%.6g", p->spine.tolerance * G.scale);
+                cc.path_tolerances.insert(tb);
+            }
             double hw = el->half_width_and_offset.count ? el->half_width_and_offset[0].u : 0;
             int64_t w2 = G.g(2 * hw);
             bool ok;
